@@ -372,7 +372,8 @@ def parse_tu(text, fname):
                        "static": "static" in decl[:p - 1], "inline": "inline" in decl[:p - 1],
                        "params": "".join(_sp(decl[p + 1:q])), "has_try": has_try, "in_ns": in_ns,
                        "body_returns": ends_in_return(body), "chain": [],
-                       "calls": calls_in(body), "inner_try": "try" in body}
+                       "calls": calls_in(body), "inner_try": "try" in body,
+                       "static_objs": [body[k + 1] for k in range(len(body) - 2) if body[k] == "static" and body[k + 2] not in ("(", "*")]}
                 i = j + 1
                 if has_try:
                     while i < hi and toks[i] == "catch":
@@ -563,6 +564,16 @@ def write_coq(facts, path):
     hl = []
     for h in facts["helpers"]:
         hl.append("  (%s, [%s])" % (coq_str(h["name"]), "; ".join(coq_str(c) for c in h["calls"])))
+    lines.append("(* entries for which the compiler reports that the address of a temporary is stored through an output parameter *)")
+    lines.append("Definition dangling_outputs : list string := [%s]." % "; ".join(coq_str(n) for n in sorted(facts.get("dangling", {}))))
+    regs = []
+    for e in sorted(facts["entries"], key=lambda e: e["name"]):
+        if e["name"] in ("ppl_set_timeout", "ppl_set_deterministic_timeout"):
+            for t in e.get("static_objs", []):
+                regs.append("(%s, %s)" % (coq_str(e["name"]), coq_ctype(t)))
+    lines.append("(* the exception object each time-out setter hands to the watchdog (its `static T e;`) *)")
+    lines.append("Definition timeout_registrations : list (string * ctype) := [%s]." % "; ".join(regs))
+    lines.append("")
     lines.append("(* bodies of the functions the handlers call: list of calls they make *)")
     lines.append("Definition handler_helpers : list (string * list string) := [\n%s]." % ";\n".join(hl))
     os.makedirs(os.path.dirname(path), exist_ok=True)
@@ -616,22 +627,29 @@ if __name__ == "__main__":
 # ---------------------------------------------------------------------------------------------------
 
 def build_objects(top, gen, libdir, names, log=lambda s: None):
-    """names: e.g. ["implementation_common", "Polyhedron"]; returns the list of object files."""
+    """names: e.g. ["implementation_common", "Polyhedron"]; returns (object files, {entry: warning}) where the
+    second component lists the functions for which g++ -Wdangling-pointer=2 reports that the address of a
+    local/temporary is stored through an output parameter."""
     import concurrent.futures as cf
     odir = os.path.join(top, "obj-" + os.path.basename(libdir))
+    for old in glob.glob(os.path.join(top, "obj-*")):
+        if old != odir:
+            shutil.rmtree(old, ignore_errors=True)
     os.makedirs(odir, exist_ok=True)
-    flags = ["-std=c++11", "-DHAVE_CONFIG_H"] + include_flags(gen, libdir) + ["-O1", "-frounding-math", "-w"]
+    flags = ["-std=c++11", "-DHAVE_CONFIG_H"] + include_flags(gen, libdir) + ["-O1", "-frounding-math", "-Wdangling-pointer=2", "-Wreturn-local-addr"]
     todo, objs = [], []
     for n in names:
         o = os.path.join(odir, "ppl_c_%s.o" % n)
         objs.append(o)
-        if not os.path.exists(o):
+        if not (os.path.exists(o) and os.path.exists(o + ".log")):
             todo.append((n, o))
     def one(no):
         n, o = no
         rc, out = common.sh(["g++"] + flags + ["-c", os.path.join(gen, "ppl_c_%s.cc" % n), "-o", o + ".tmp"], timeout=1800)
         if rc != 0:
             raise common.BuildError("compiling regenerated ppl_c_%s.cc failed:\n%s" % (n, out[-3000:]))
+        with open(o + ".log", "w") as f:
+            f.write(out)
         os.rename(o + ".tmp", o)
     if todo:
         import time
@@ -640,4 +658,25 @@ def build_objects(top, gen, libdir, names, log=lambda s: None):
             with cf.ThreadPoolExecutor(max_workers=max(1, common.NCPU // 2)) as ex:
                 list(ex.map(one, todo))
         log("compiled %d regenerated interface files in %.1fs" % (len(todo), time.time() - t0))
-    return objs
+    dangling = {}
+    for o in objs:
+        cur = None
+        for line in open(o + ".log"):
+            m = re.search("In function [\u2018'][^\u2019']*?\\b(\\w+)\\(", line)
+            if m:
+                cur = m.group(1)
+            if "warning:" in line and ("-Wdangling-pointer" in line or "-Wreturn-local-addr" in line) and cur:
+                dangling[cur] = line.strip()[-160:]
+    return objs, dangling
+
+
+def defined_symbols(objs):
+    """Global text symbols defined by the compiled interface objects (nm): ties the parsed entry list to the binary."""
+    out = {}
+    for o in objs:
+        rc, txt = common.sh(["nm", "-g", "--defined-only", o], timeout=120)
+        for line in txt.split("\n"):
+            f = line.split()
+            if len(f) == 3 and f[1] in ("T", "W"):
+                out[f[2]] = os.path.basename(o)
+    return out
